@@ -25,6 +25,10 @@ const tagHeader = "X-Verif-Client"
 
 // ctl is the harness' handle on one client under test.
 type ctl struct {
+	// base is this client's own connection pool.  One pool per client: with a shared pool net/http lets one client's
+	// cancelled request (the streamable client's asynchronous GET, cancelled by Close) tear down a pooled connection another
+	// client's request has just been handed, which then fails with a spurious "context canceled".
+	base *http.Transport
 	mu   sync.Mutex
 	env  string // "", netErr, http500, dropNotif: what the network does during the current call
 	log  []string
@@ -62,6 +66,10 @@ func (r *recorder) RoundTrip(req *http.Request) (*http.Response, error) {
 		return r.base.RoundTrip(req)
 	}
 	c := v.(*ctl)
+	base := http.RoundTripper(r.base)
+	if c.base != nil {
+		base = c.base
+	}
 	label := req.Method
 	if req.Method == http.MethodPost && req.Body != nil {
 		b, _ := io.ReadAll(req.Body)
@@ -93,7 +101,7 @@ func (r *recorder) RoundTrip(req *http.Request) (*http.Response, error) {
 		return &http.Response{Status: "500 Internal Server Error", StatusCode: 500, Proto: "HTTP/1.1", ProtoMajor: 1, ProtoMinor: 1,
 			Header: http.Header{"Content-Type": {"text/plain"}}, Body: io.NopCloser(strings.NewReader("injected failure")), Request: req}, nil
 	}
-	return r.base.RoundTrip(req)
+	return base.RoundTrip(req)
 }
 
 // ---------- the script shared by the three fake peers
@@ -162,6 +170,9 @@ func newFakeStreamable() *httptest.Server {
 		case http.MethodDelete:
 			w.WriteHeader(200)
 		default:
+			// the listening stream is refused; the connection is not kept, so that the client's later cancellation of this
+			// (asynchronous) request cannot hit a pooled connection that already carries another request
+			w.Header().Set("Connection", "close")
 			w.WriteHeader(http.StatusMethodNotAllowed)
 		}
 	})
@@ -233,4 +244,8 @@ func newFakeSSE() *httptest.Server {
 	ts.Config.ErrorLog = hk.QuietStdLog()
 	ts.Start()
 	return ts
+}
+
+func newClientPool() *http.Transport {
+	return &http.Transport{MaxIdleConnsPerHost: 4, DisableCompression: true}
 }
